@@ -21,8 +21,10 @@ from harness import c08 as G
 from harness.c08 import q, fr, jspec, unjspec, Truth, pmodel
 
 PROP = 'C09'
-GENERATORS = []
+GENERATORS = ['gen_catroi']
 TRUSTED = [
+    'tools/gen/gen_catroi.py (fail-closed ast translator of CategoricalROI.from_range / update_categories / contains and of the decision tree of '
+    'roi_to_subset_state; branch bodies compared as text) and coq/C09/PyNum.v (meaning of slicing, np.unique, np.searchsorted on ascending input)',
     'hand model coq/C09/Model.v of roi_to_subset_state (dispatch), CategoricalROI.from_range, polygon_line_intersections and the to_mask of '
     'RangeSubsetState / CategoricalROISubsetState / AndState / CategoricalROISubsetState2D / CategoricalMultiRangeSubsetState / RoiSubsetState; '
     'geometry from coq/C08/Model.v; tied to the code by correspondence only',
@@ -39,6 +41,7 @@ ASSUMPTIONS = [
 ]
 
 TINY = 2.0 ** -30
+NPROC = 4        # driver processes per batch
 # known finding (known_findings/C09.json): the annulus polygon has a zero-width bridge between its rings along y = yc, x in [xc+ri, xc+ro];
 # when y is categorical and yc is a category index, the line y = yc runs along the bridge and the segment on it is dropped
 KEY_BRIDGE = 'annulus-bridge-on-category-line'
@@ -66,28 +69,106 @@ PREFIX_POOLS = LABEL_POOLS[4:]
 
 def make_axis(kind, labels, values, order=None):
     """kind 'cat' -> (array of labels, codes, categories) ; 'num' -> (float array, None, None).
-    `order` = explicit category order of the component (may contain labels that do not occur in the data); the plotted position
+    `order` = explicit category order of the component (may contain labels that do not occur in the data, and the data may hold
+    labels that are not in it: those elements have no category index - code None - and are drawn nowhere); the plotted position
     of an element is the index of its label in the component's categories (default: sorted unique labels)"""
     if kind == 'cat':
         arr = np.array(labels)
         if order is None:
             cats = np.unique(arr)
-            codes = np.searchsorted(cats, arr)
+            codes = [int(c) for c in np.searchsorted(cats, arr)]
         else:
             cats = np.array(list(order))
             pos = {lab: i for i, lab in enumerate(order)}
-            codes = np.array([pos[lab] for lab in labels], dtype=int)
+            codes = [pos.get(lab) for lab in labels]
         return arr, codes, cats
     return np.array(values, dtype=float), None, None
 
 
-def build_data(xs, ys, xorder=None, yorder=None):
+# jitter values written over the random ones in the 'extreme' mode: the ends of the interval numpy.random.random() - 0.5 can reach
+JIT_EXTREME = [-0.5, float(np.nextafter(0.5, 0)), -0.25, 0.4999, -0.4999, 0.0]
+
+
+def build_data(xs, ys, xorder=None, yorder=None, jitter=None, shape=None):
+    """jitter = (axes, how, seed): axes in 'x' | 'y' | 'xy' (categorical attributes only); how = 'ctor' (CategoricalComponent(...,
+    jitter='uniform')), 'method' (component.jitter(method='uniform') afterwards), 'toggle' (on, off, on again) or 'extreme' (method,
+    then the offsets are overwritten by the extreme values of [-0.5, 0.5)); numpy's global generator is seeded with `seed` for the
+    calls and restored.  shape: the arrays are reshaped (N-d components)."""
     from glue.core import Data
     from glue.core.component import CategoricalComponent
     d = Data()
-    d.add_component(xs if xorder is None else CategoricalComponent(xs, categories=np.array(list(xorder))), 'x')
-    d.add_component(ys if yorder is None else CategoricalComponent(ys, categories=np.array(list(yorder))), 'y')
+    axes, how, jseed = jitter if jitter else ('', None, 0)
+    saved = np.random.get_state() if axes else None
+    try:
+        if axes:
+            np.random.seed(int(jseed) % (2 ** 32))
+        for name, arr, order in (('x', xs, xorder), ('y', ys, yorder)):
+            arr = np.asarray(arr)
+            if shape is not None:
+                arr = arr.reshape(shape)
+            jit = name in axes and arr.dtype.kind in 'US'
+            if arr.dtype.kind in 'US' and (order is not None or jit):
+                comp = CategoricalComponent(arr, categories=None if order is None else np.array(list(order)),
+                                            jitter='uniform' if (jit and how == 'ctor') else None)
+                d.add_component(comp, name)
+                if jit and how != 'ctor':
+                    comp.jitter(method='uniform')
+                if jit and how == 'toggle':
+                    comp.jitter(method=None)
+                    comp.jitter(method='uniform')
+                if jit and how == 'extreme' and getattr(comp.data, '_jitter', None) is not None:
+                    jj = comp.data._jitter
+                    jj[...] = np.resize(np.array(JIT_EXTREME[jseed % 3:] + JIT_EXTREME[:jseed % 3]), jj.size).reshape(jj.shape)
+            else:
+                d.add_component(arr, name)
+    finally:
+        if saved is not None:
+            np.random.set_state(saved)
     return d
+
+
+def mk_view(v):
+    """JSON-able description of a view -> the object handed to to_mask"""
+    def comp(c):
+        if isinstance(c, (list, tuple)):
+            return slice(c[1], c[2], c[3]) if c[0] == 'slice' else Ellipsis
+        return int(c)
+    k = v[0]
+    if k == 'none':
+        return None
+    if k == 'ellipsis':
+        return Ellipsis
+    if k == 'slice':
+        return slice(v[1], v[2], v[3])
+    if k == 'int':
+        return int(v[1])
+    if k == 'tuple':
+        return tuple(comp(c) for c in v[1])
+    if k == 'index':
+        return np.array(v[1], dtype=int)
+    if k == 'list':
+        return [int(i) for i in v[1]]
+    if k == 'bool':
+        return np.array(v[1], dtype=bool)
+    raise ValueError(v)
+
+
+def view_is_scalar(v, ndim=1):
+    return v[0] == 'int' or (v[0] == 'tuple' and len(v[1]) == ndim and all(not isinstance(c, (list, tuple)) for c in v[1]))
+
+
+def views_1d(n):
+    """the ways a mask is requested for n >= 1 elements (besides no view at all)"""
+    out = [['ellipsis'], ['slice', None, None, None], ['slice', 1, None, 2], ['slice', None, None, -1], ['int', n // 2], ['tuple', [n - 1]],
+           ['index', sorted(set([0, n - 1, n // 3]))[::-1] + [n - 1]], ['list', [n - 1, 0]], ['bool', [i % 3 != 1 for i in range(n)]],
+           ['tuple', [['slice', 1, max(n - 1, 1), None]]], ['index', []], ['int', -1]]
+    return out
+
+
+def views_nd(shape):
+    r, c = shape[0], shape[1]
+    return [['ellipsis'], ['tuple', [0]], ['tuple', [['slice', None, None, None], c - 1]], ['tuple', [r - 1, 0]], ['index', [r - 1, 0]],
+            ['tuple', [['slice', None, None, -1], ['slice', None, None, None]]], ['tuple', [['ellipsis'], 0]], ['slice', None, None, None]]
 
 
 # ------------------------------------------------------------------ implementation state -> canonical form
@@ -284,13 +365,34 @@ class Cases:
         self.items = []
         self.n = 0
 
-    def add(self, spec, xkind, ykind, xs, ys, sub=None, xorder=None, yorder=None, nscale=None):
+    def auto(self, spec, xkind, ykind, n, explicit=False):
+        """jitter / views / shape for case number self.n of an existing stream, derived from the run seed and the case number only"""
+        import random
+        rng = random.Random('%s/%s/%d' % (getattr(self.R, 'seed', 0), self.stream, self.n))
+        cat_axes = ('x' if xkind == 'cat' else '') + ('y' if ykind == 'cat' else '')
+        jit = None
+        if cat_axes and rng.random() < 0.5:
+            axes = cat_axes if rng.random() < 0.6 else rng.choice(cat_axes)
+            jit = (axes, rng.choice(['ctor', 'method', 'toggle', 'extreme']), rng.randrange(10 ** 6))
+        scalar_ok = bool(cat_axes) and exact_path(spec)
+        shape = None
+        if scalar_ok and not explicit and n >= 4 and n % 2 == 0 and rng.random() < 0.15:
+            shape = (n // 2, 2)
+        vs = views_nd(shape) if shape else views_1d(n)
+        vs = [v for v in vs if scalar_ok or not view_is_scalar(v, 2 if shape else 1)]
+        return dict(jitter=jit, shape=shape, views=rng.sample(vs, 1) if (n and rng.random() < 0.5) else [], subset_api=rng.random() < 0.05)
+
+    def add(self, spec, xkind, ykind, xs, ys, sub=None, xorder=None, yorder=None, nscale=None, jitter='auto', views=(), shape=None,
+            subset_api=False):
         """xs / ys: list of labels (categorical) or floats incl. nan (numeric); same length;
         xorder / yorder: explicit category order of a categorical component (None = sorted unique labels);
         nscale = (axis, k): the implementation sees the numeric axis `axis` multiplied by 2^k (region and data, exactly); oracle and
         model work on the unscaled case, and the returned state is divided by 2^k again before it is compared"""
         from glue.core.subset import roi_to_subset_state
         R = self.R
+        if jitter == 'auto':
+            a = self.auto(spec, xkind, ykind, len(xs), explicit=xorder is not None or yorder is not None)
+            jitter, views, shape, subset_api = a['jitter'], a['views'], a['shape'], a['subset_api']
         xarr, xcodes, xcats = make_axis(xkind, xs, xs, xorder)
         yarr, ycodes, ycats = make_axis(ykind, ys, ys, yorder)
         case = {'stream': self.stream, 'roi': jspec(spec), 'xkind': xkind, 'ykind': ykind,
@@ -301,6 +403,10 @@ class Cases:
             case['ycats'] = list(yorder)
         if sub is not None:
             case['sub'] = sub
+        if jitter:
+            case['jitter'] = list(jitter)
+        if shape:
+            case['shape'] = list(shape)
         self.n += 1
         mixed = (xkind == 'cat') != (ykind == 'cat')
         impl_spec, sfac = spec, None
@@ -314,10 +420,13 @@ class Cases:
                 else:
                     yarr = yarr * sfac
         try:
-            d = build_data(xarr, yarr, xorder if xkind == 'cat' else None, yorder if ykind == 'cat' else None)
+            d = build_data(xarr, yarr, xorder if xkind == 'cat' else None, yorder if ykind == 'cat' else None, jitter=jitter, shape=shape)
             roi = build_roi(impl_spec, xcats)
             st = roi_to_subset_state(roi, x_att=d.id['x'], y_att=d.id['y'], x_categories=xcats, y_categories=ycats)
-            mask = np.asarray(st.to_mask(d)).astype(bool)
+            mask_nd = np.asarray(st.to_mask(d)).astype(bool)
+            mask = mask_nd.ravel()
+            if mask.shape != (len(xs),):
+                raise ValueError('mask of shape %r for %d elements' % (mask_nd.shape, len(xs)))
             cst = canon_state(st, d, xcats, ycats)
             if sfac is not None:
                 cst = unscale_state(cst, 0 if nscale[0] == 'x' else 1, sfac)
@@ -330,13 +439,15 @@ class Cases:
                         stream=self.stream, kind=spec[0], axes=xkind + '/' + ykind, outcome='raised')
                 return
         # plotted positions
-        px = [F(int(c)) for c in xcodes] if xkind == 'cat' else [None if v != v else F(float(v)) for v in xs]
-        py = [F(int(c)) for c in ycodes] if ykind == 'cat' else [None if v != v else F(float(v)) for v in ys]
+        # (category index; None for a label that is not among the component's categories, and for NaN) - never read from the component:
+        # the jitter a component may carry spreads the markers of one category for display and does not move an element to another category
+        px = [None if c is None else F(int(c)) for c in xcodes] if xkind == 'cat' else [None if v != v else F(float(v)) for v in xs]
+        py = [None if c is None else F(int(c)) for c in ycodes] if ykind == 'cat' else [None if v != v else F(float(v)) for v in ys]
         # ---- oracle: exact geometry at the plotted positions
         if spec[0] == 'catroi':
             truth = None
             eps = F(0)
-            orc = [(1 if (xkind == 'cat' and int(xcodes[i]) in spec[1]) else 0) for i in range(len(xs))]
+            orc = [(1 if (xkind == 'cat' and xcodes[i] is not None and int(xcodes[i]) in spec[1]) else 0) for i in range(len(xs))]
         else:
             truth = Truth.of_spec(spec)
             vals = [v for v in px + py if v is not None]
@@ -368,15 +479,70 @@ class Cases:
                                             'plotted': [None if px[i] is None else float(px[i]), None if py[i] is None else float(py[i])],
                                             'state': type(st).__name__, 'eps': float(eps), 'n_bad': len(grp)},
                            key=key)
+            # ---- the same selection requested through views (and through Subset.to_mask): element by element the same verdicts
+            n_el = len(xs)
+            shp = tuple(shape) if shape else (n_el,)
+            orc_nd = np.array(orc, dtype=int).reshape(shp)
+            idx_nd = np.arange(n_el).reshape(shp)
+            known_set = set(known)
+            reqs = [('state', v) for v in views]
+            if subset_api:
+                reqs += [('subset', ['none'])] + [('subset', v) for v in list(views)[:1]]
+            for api, vdesc in reqs:
+                vcase = dict(case, view=vdesc, api=api, full_x=case['x'], full_y=case['y'])
+                try:
+                    view = mk_view(vdesc)
+                    if api == 'subset':
+                        sb = d.new_subset()
+                        sb.subset_state = st
+                        mv = np.asarray(sb.to_mask() if view is None else sb.to_mask(view))
+                    else:
+                        mv = np.asarray(st.to_mask(d, view))
+                    want = np.asarray(orc_nd[view] if view is not None else orc_nd)
+                    which = np.asarray(idx_nd[view] if view is not None else idx_nd)
+                except Exception as e:
+                    R.fail('oracle', vcase, {'why': 'mask through a view raised %s: %s' % (type(e).__name__, e), 'state': type(st).__name__})
+                    continue
+                if mv.shape != want.shape:
+                    R.fail('oracle', vcase, {'why': 'mask through a view has shape %r, the viewed elements have shape %r' % (mv.shape, want.shape),
+                                             'state': type(st).__name__})
+                    continue
+                wrong = (want != 2) & (mv.astype(bool) != (want == 1))
+                els = [int(i) for i in np.atleast_1d(which[wrong]).ravel() if int(i) not in known_set]
+                if els:
+                    i = els[0]
+                    R.fail('oracle', dict(vcase, x=[case['x'][i]], y=[case['y'][i]]),
+                           {'why': 'element selected through a view != plotted position inside the region (away from the boundary)',
+                            'element': i, 'inside': orc[i] == 1, 'selected_without_view': bool(mask[i]),
+                            'plotted': [None if px[i] is None else float(px[i]), None if py[i] is None else float(py[i])],
+                            'state': type(st).__name__, 'n_bad': len(els)})
+        # ---- the display offsets the components carry at this moment (what .codes adds to the category index): an input of the model,
+        # which has to ignore it
+        def offsets(name, codes):
+            try:
+                comp = d.get_component(d.id[name])
+                jj = getattr(comp.data, '_jitter', None)
+                if hasattr(comp.data, '_categories') and hasattr(jj, 'shape') and jj.shape == comp.data.shape and not hasattr(comp.data, '_codes'):
+                    # explicit category list: .codes goes through a pandas merge (3 ms); the offsets themselves are the same numbers
+                    return [F(0) if c is None else F(float(v)) for c, v in zip(codes, np.asarray(jj, dtype=float).ravel())]
+                shown = np.asarray(comp.codes, dtype=float).ravel()
+                return [F(0) if (c is None or not np.isfinite(shown[i])) else F(float(shown[i])) - c for i, c in enumerate(codes)]
+            except Exception:
+                return [F(0)] * len(codes)
+        jx = offsets('x', xcodes) if (xkind == 'cat' and jitter and 'x' in jitter[0]) else None
+        jy = offsets('y', ycodes) if (ykind == 'cat' and jitter and 'y' in jitter[0]) else None
         # ---- model line
         def kt(kind, cats):
             return (1, [len(cats)]) if kind == 'cat' else 0
 
-        def ct(kind, code, v):
+        def ct(kind, code, v, j):
             if kind == 'cat':
-                return (1, [int(code)])
+                if code is None:
+                    return (0, [])
+                return (1, [int(code)]) if j is None else (3, [int(code), q(j)])
             return (0, []) if v is None else (2, [q(v)])
-        els = [(0, [ct(xkind, xcodes[i] if xkind == 'cat' else None, px[i]), ct(ykind, ycodes[i] if ykind == 'cat' else None, py[i])]) for i in range(len(xs))]
+        els = [(0, [ct(xkind, xcodes[i] if xkind == 'cat' else None, px[i], jx[i] if jx else None),
+                    ct(ykind, ycodes[i] if ykind == 'cat' else None, py[i], jy[i] if jy else None)]) for i in range(len(xs))]
         line = enc((1, [q(eps), roi9_tree(spec, mixed), kt(xkind, xcats), kt(ykind, ycats), (0, els)]))
         self.items.append((case, line, cst, mask, orc, eps, truth, spec, bridge))
 
@@ -384,11 +550,13 @@ class Cases:
         R = self.R
         if not self.items:
             return
-        outs = pmodel(R, [it[1] for it in self.items])
+        outs = pmodel(R, [it[1] for it in self.items], nproc=NPROC)
         for (case, line, cst, mask, orc, eps, truth, spec, bridge), o in zip(self.items, outs):
             nin = 0 if mask is None else int(mask.sum())
-            R.count((self.stream, repr(case['roi']), case['xkind'], case['ykind'], tuple(case['x']), tuple(case['y']), tuple(case.get('xcats', ())), tuple(case.get('ycats', ()))),
-                    nontrivial=mask is not None and 0 < nin < len(mask), numeric_scale=('2^%d' % case['nscale'][1] if case.get('nscale') else '1'), cat_order=('explicit' if ('xcats' in case or 'ycats' in case) else 'sorted'), stream=self.stream, kind=spec[0], axes=case['xkind'] + '/' + case['ykind'],
+            R.count((self.stream, repr(case['roi']), case['xkind'], case['ykind'], tuple(case['x']), tuple(case['y']), tuple(case.get('xcats', ())), tuple(case.get('ycats', ())),
+                     tuple(case.get('jitter', ())), tuple(case.get('shape', ()))),
+                    nontrivial=mask is not None and 0 < nin < len(mask), jitter=('%s/%s' % tuple(case['jitter'][:2]) if case.get('jitter') else 'off'),
+                    ndim=len(case.get('shape', (0,))), numeric_scale=('2^%d' % case['nscale'][1] if case.get('nscale') else '1'), cat_order=('explicit' if ('xcats' in case or 'ycats' in case) else 'sorted'), stream=self.stream, kind=spec[0], axes=case['xkind'] + '/' + case['ykind'],
                     path=cst[0], n_elements=len(case['x']))
             if is_err(o) or tag(o) != 0:
                 R.fail('correspondence', case, {'why': 'model returned an error', 'model': o})
@@ -455,7 +623,7 @@ def stream_from_range(R):
         for lo in pos:
             for hi in pos:
                 cases.append((n, lo, hi))
-    outs = pmodel(R, [enc((2, [n, q(F(lo)), q(F(hi))])) for n, lo, hi in cases])
+    outs = pmodel(R, [enc((2, [n, q(F(lo)), q(F(hi))])) for n, lo, hi in cases], nproc=NPROC)
     labels = np.array(['a', 'b', 'c', 'd', 'e', 'f'])
     for (n, lo, hi), o in zip(cases, outs):
         cats = labels[:n]
@@ -560,7 +728,7 @@ def stream_category_orders(R):
         C.finish()
     # the label level on its own: stored categories of CategoricalROI.from_range (np.unique order) and its searchsorted-based contains
     rank = {lab: i for i, lab in enumerate(sorted(pool))}
-    outs = pmodel(R, [enc((4, [(0, [rank[l] for l in order]), q(F(lo)), q(F(hi)), (0, [rank[l] for l in pool])])) for order, lo, hi in fr_cases])
+    outs = pmodel(R, [enc((4, [(0, [rank[l] for l in order]), q(F(lo)), q(F(hi)), (0, [rank[l] for l in pool])])) for order, lo, hi in fr_cases], nproc=NPROC)
     for (order, lo, hi), o in zip(fr_cases, outs):
         case = {'stream': 'category_orders', 'categories': list(order), 'lo': lo, 'hi': hi}
         try:
@@ -584,6 +752,90 @@ def stream_category_orders(R):
              bound='every permutation of 2..4 labels as the component categories (every third one with a category that has no element); '
                    'range edges at k - 1/2 and a few others, all pairs (12 sampled per permutation for 4 labels in the quick tier); range x / range y / '
                    'rectangle (theta 0, +-pi) on cat-num, num-cat, cat-cat')
+
+
+def stream_jitter_boundaries(R):
+    """every way of drawing a region edge between two neighbouring categories (all pairs of boundaries k - 1/2, 1..6 categories), on every
+    path of roi_to_subset_state that involves a categorical axis, with the display jitter of the categorical components off / on for
+    x / y / both (switched on in the constructor, by .jitter(), toggled, or with the extreme offsets), the mask requested without a
+    view, through every kind of view, through Subset.to_mask, and for 2-d component arrays.  Expected: the category index decides."""
+    C = Cases(R, 'jitter_boundaries')
+    pool = ['a', 'b', 'c', 'd', 'e', 'f', 'g']
+    hows = ['method', 'ctor', 'extreme', 'toggle']
+    nmax = R.pick(6, 7)
+    it = 0
+    for n in range(1, nmax + 1):
+        labs = pool[:n]
+        bounds = [F(2 * k - 1, 2) for k in range(0, n + 1)]
+        pairs = [(a, b) for a in bounds for b in bounds if a < b]
+        for ip, (lo, hi) in enumerate(pairs):
+            lo2, hi2 = pairs[(ip * 5 + 2) % len(pairs)]
+            # explicit category order on every other pair: a rotation of the reversed labels; every fourth pair one category has no
+            # element, every sixth pair the data holds a label that is not among the categories (no category index: never selected)
+            order = None
+            present = list(labs)
+            if ip % 2:
+                r = ip % n
+                order = list(reversed(labs))[r:] + list(reversed(labs))[:r]
+                if ip % 4 == 1 and n > 1:
+                    present = [l for l in labs if l != order[(ip // 4) % n]]
+                if ip % 6 == 1:
+                    present = present + ['zz']
+            nv = R.pick([0.0, 1.0, float('nan')], [0.0, 1.0, 1.5, 2.0, float('nan')])
+            y0, y1 = F(1, 4), F(7, 4)
+            cn_x = [a for a in present for _ in nv]
+            cn_y = [v for _ in present for v in nv]
+            cc_x = [a for a in present for _ in labs]
+            cc_y = [b for _ in present for b in labs]
+            inside = tuple(k for k in range(n) if lo < k < hi)
+            cx, cy = (lo + hi) / 2, (y0 + y1) / 2
+            cy2 = (lo2 + hi2) / 2
+            quarter = ('mult', 1, 0)
+            specs = [
+                (('range', 'x', lo, hi), 'cat', 'num', cn_x, cn_y, order, None),
+                (('range', 'y', lo, hi), 'num', 'cat', cn_y, cn_x, None, order),
+                (('range', 'x', lo, hi), 'cat', 'cat', cc_x, cc_y, order, None),
+                (('range', 'y', lo, hi), 'cat', 'cat', cc_y, cc_x, None, order),
+                (('rect', lo, hi, y0, y1, None), 'cat', 'num', cn_x, cn_y, order, None),
+                (('rect', y0, y1, lo, hi, ('mult', 2, 0)), 'num', 'cat', cn_y, cn_x, None, order),
+                (('rect', lo, hi, lo2, hi2, None), 'cat', 'cat', cc_x, cc_y, order, None),
+                # rotated by a quarter turn about its centre: the polygon paths (mixed and 2-d categorical)
+                (('rect', cx - (y1 - y0) / 2, cx + (y1 - y0) / 2, cy - (hi - lo) / 2, cy + (hi - lo) / 2, quarter), 'cat', 'num', cn_x, cn_y, order, None),
+                (('rect', cy - (hi - lo) / 2, cy + (hi - lo) / 2, cx - (y1 - y0) / 2, cx + (y1 - y0) / 2, quarter), 'num', 'cat', cn_y, cn_x, None, order),
+                (('rect', cx - (hi2 - lo2) / 2, cx + (hi2 - lo2) / 2, cy2 - (hi - lo) / 2, cy2 + (hi - lo) / 2, quarter), 'cat', 'cat', cc_x, cc_y, order, None),
+                (('poly', ((lo, y0), (hi, y0), (hi, y1), (lo, y1))), 'cat', 'num', cn_x, cn_y, order, None),
+                (('poly', ((y0, lo), (y0, hi), (y1, hi), (y1, lo))), 'num', 'cat', cn_y, cn_x, None, order),
+                (('poly', ((lo, lo2), (hi, lo2), (hi, hi2), (lo, hi2), (lo, lo2))), 'cat', 'cat', cc_x, cc_y, order, None),
+                (('catroi', inside), 'cat', 'num', cn_x, cn_y, order, None),
+                (('catroi', inside), 'cat', 'cat', cc_x, cc_y, order, None),
+            ]
+            for spec, xk, yk, xs, ys, xo, yo in specs:
+                if (xk == 'cat' and yk == 'cat') and (xo is not None or yo is not None):
+                    # the other categorical attribute: explicit order too (the labels as they are)
+                    xo = xo if xo is not None else list(labs)
+                    yo = yo if yo is not None else list(labs)
+                cat_axes = ('x' if xk == 'cat' else '') + ('y' if yk == 'cat' else '')
+                modes = [cat_axes, ''] if len(cat_axes) == 1 else (['xy', 'xy'[ip % 2], ''] if R.quick() else ['xy', 'x', 'y', ''])
+                exact = exact_path(spec)
+                for axes in modes:
+                    it += 1
+                    jit = (axes, hows[it % 4], 1000 * R.seed + it) if axes else None
+                    nel = len(xs)
+                    shape = None
+                    if exact and xo is None and yo is None and nel >= 4 and nel % 2 == 0 and it % 3 == 0:
+                        shape = (nel // 2, 2)
+                    vs = views_nd(shape) if shape else views_1d(nel)
+                    vs = [v for v in vs if exact or not view_is_scalar(v, 2 if shape else 1)]
+                    # quick tier: a rotating window of 3 of the views; thorough: all of them
+                    if R.quick():
+                        vs = [vs[(it + j_) % len(vs)] for j_ in range(3)]
+                    C.add(spec, xk, yk, xs, ys, xorder=xo, yorder=yo, jitter=jit, views=vs, shape=shape, subset_api=(it % 4 == 0))
+        C.finish()
+    R.stream('jitter_boundaries', cases=C.n, exhaustive=True,
+             bound='1..%d categories, every pair of category boundaries k - 1/2 as the region edges; range x / range y / rectangle (theta 0, pi, pi/2) / '
+                   'polygon / categorical region on cat-num, num-cat, cat-cat; display jitter off and on per categorical attribute (constructor, '
+                   '.jitter(), toggled, extreme offsets); explicit category orders with unused categories and labels outside the categories; '
+                   'masks without a view, through 12 kinds of views, through Subset.to_mask, 2-d component arrays' % nmax)
 
 
 def lattice_polys(rng):
@@ -727,7 +979,7 @@ def stream_line_intersections(R):
     for spec, k, sw in cases:
         vs = [(b, a) for a, b in spec[1]] if sw else list(spec[1])
         lines.append(enc((3, [(0, [(0, [q(a), q(b)]) for a, b in vs]), q(F(k))])))
-    outs = pmodel(R, lines)
+    outs = pmodel(R, lines, nproc=NPROC)
     for (spec, k, sw), o in zip(cases, outs):
         vx = [float(a) for a, _ in spec[1]]
         vy = [float(b) for _, b in spec[1]]
@@ -768,6 +1020,7 @@ def run(R):
     stream_categorical_roi(R)
     stream_line_intersections(R)
     stream_category_orders(R)
+    stream_jitter_boundaries(R)
     stream_axis_aligned(R)
     stream_polygon_like(R)
     R.sample({'roi': ['rect', -0.5, 2.5, 0.75, 1.5, None], 'xkind': 'cat', 'ykind': 'num', 'x': ['b', 'a', 'c'], 'y': [1.0, 0.75, float('nan')]})
@@ -789,7 +1042,14 @@ def replay(R, case):
         Cl = G.Collect()
         C = Cases(Cl, case.get('stream', 'replay'))
         C.add(spec, case['xkind'], case['ykind'], xs, ys, xorder=case.get('xcats'), yorder=case.get('ycats'),
-              nscale=tuple(case['nscale']) if case.get('nscale') else None)
+              nscale=tuple(case['nscale']) if case.get('nscale') else None,
+              jitter=tuple(case['jitter']) if case.get('jitter') else None, shape=tuple(case['shape']) if case.get('shape') else None,
+              views=[case['view']] if (case.get('view') and case.get('api') != 'subset') else [], subset_api=False)
+        if case.get('api') == 'subset':
+            C.n = 0
+            C.add(spec, case['xkind'], case['ykind'], xs, ys, xorder=case.get('xcats'), yorder=case.get('ycats'),
+                  jitter=tuple(case['jitter']) if case.get('jitter') else None, shape=tuple(case['shape']) if case.get('shape') else None,
+                  views=[case['view']] if case.get('view') and case['view'] != ['none'] else [], subset_api=True)
         fails = [f['detail'] for f in Cl.failures if f['kind'] == 'oracle']
         out['oracle_failures'] = fails
         out['known_finding_keys'] = sorted(set(f['key'] for f in Cl.failures if f['kind'] == 'oracle' and f.get('key')))
